@@ -205,7 +205,6 @@ func langEqual(a, b *nfa) (bool, string) {
 	return true, fmt.Sprintf("(%d product states)", len(seen))
 }
 
-
 const (
 	refEAN13  = `^[0-9]{13}$`
 	refEAN13p = `^[0-9]{13}-[0-9]{5}$`
